@@ -121,7 +121,23 @@ func ip4Layer(f *frag, k int, id uint16) *layers.IPv4 {
 	return ip
 }
 
-func simC13v4(c *sim.Ctx) {
+func simC13v4(c *sim.Ctx) { runC13v4(c, false) }
+
+// simC13v4clock is the same simulation through DefragIPv4, which stamps the
+// fragment lists with time.Now() itself: it runs inside a synctest bubble
+// whose fake clock the harness advances to each event's time.
+func simC13v4clock(c *sim.Ctx) {
+	bubble.Run(c, func(b *bubble.B) {
+		runC13v4(c, true)
+		c.Probe("defragmented_on_simulated_clock")
+	})
+}
+
+func runC13v4(c *sim.Ctx, clock bool) {
+	base := base
+	if clock {
+		base = time.Now()
+	}
 	// ---- plan ----
 	nkeys := 1 + c.Weighted(5, 3, 1, 1)
 	ndg := 1 + c.Weighted(4, 3, 2, 1)
@@ -374,7 +390,16 @@ func simC13v4(c *sim.Ctx) {
 		f := e.f
 		ip := ip4Layer(f, f.key, keyID(f.key))
 		c.Ev("frag", int64(f.key), int64(f.dg), int64(f.off), int64(len(f.payload)), b2i(f.more), int64(f.ihl), b2i(f.whole), e.at)
-		out, err := d.DefragIPv4WithTimestamp(ip, now)
+		var out *layers.IPv4
+		var err error
+		if clock {
+			if dt := time.Until(now); dt > 0 {
+				time.Sleep(dt)
+			}
+			out, err = d.DefragIPv4(ip)
+		} else {
+			out, err = d.DefragIPv4WithTimestamp(ip, now)
+		}
 		c.Ev("ret", b2i(out != nil), b2i(err != nil))
 		in := insts[f.key]
 		{
@@ -810,7 +835,7 @@ func simC13v6clock(c *sim.Ctx) {
 	})
 }
 
-var sims = map[string]sim.SimFunc{"c13v4": simC13v4, "c13v6": simC13v6, "c13v6clock": simC13v6clock}
+var sims = map[string]sim.SimFunc{"c13v4": simC13v4, "c13v6": simC13v6, "c13v6clock": simC13v6clock, "c13v4clock": simC13v4clock}
 
 func TestChild(t *testing.T) {
 	bubble.T = t
